@@ -183,6 +183,25 @@ CHECKS['C12'] = dict(
     note='no browser: html.parser stands in for the HTML tokenizer; figures compared at printed precision',
     design='§4 C12')
 
+CHECKS['C11'] = dict(
+    technique='TLA+ spec Pipeline.tla: tally up as the composition Totals(Classify(Parse(sources))) built from Rows!Parse, Engine!Classify and '
+              'the bucket function; MC_Pipeline explores budgets by single-setting steps and TLC checks OtherSourcesUntouched / '
+              'MissingIsolated / SupplementalNeverCounted / FlowsConserve; TLC -simulate walks are materialised as real budget directories and '
+              'run through the real `tally up`, the HTML data decoded and compared per transaction and per flow with Pipeline!Report',
+    text='The composition is specified from the component specs; every budget on TLC-generated walks (each step one setting change) is run '
+         'through the real CLI in a fresh process and compared with the specified report and with its predecessor on the walk.',
+    note='fixed rule set and statement tables; budgets differ in settings; rule_mode applies to .rules files only',
+    design='§4 C11')
+CHECKS['C16'] = dict(
+    technique='TLA+ spec Pipeline.tla (Explain and Discover defined FROM the classification of up): the budgets of TLC -simulate walks over '
+              'MC_Pipeline are materialised with a rules file that stresses the re-implementations; real `tally up`, `tally explain <merchant>`, '
+              '`tally explain "<description>" --amount`, `tally discover` are compared with each other and with Pipeline!Explain / the Unknown '
+              'part of Pipeline!Report',
+    text='Three commands are run on every budget of the walks; explain must report what the spec (and up) assign, discover must list exactly '
+         'the Unknown transactions with counts and totals.',
+    note='descriptions probed by explain occur in no statement; budgets share the Pipeline universe',
+    design='§4 C16')
+
 NOT_YET = {}
 
 
